@@ -549,8 +549,20 @@ fn compile_lazy(src: &str) -> Option<Assembly> {
 }
 
 /// all nodes of a tree in pre-order as paths of child indices
+/// variants the exporter prints as `NOther` (content hash and own span only): the tie does not vary
+/// ingredients INSIDE them (custom inverses, no-inline and track-caller wrappers, labels, formats, ...)
+fn is_opaque(n: &Node) -> bool {
+    !matches!(
+        n,
+        Node::Prim(..) | Node::ImplPrim(..) | Node::Mod(..) | Node::ImplMod(..) | Node::Array { .. } | Node::Switch { .. } | Node::Call(..) | Node::CallGlobal(..) | Node::Push(..) | Node::Run(..)
+    )
+}
+
 fn paths(n: &Node, cur: &mut Vec<usize>, out: &mut Vec<Vec<usize>>) {
     out.push(cur.clone());
+    if is_opaque(n) {
+        return;
+    }
     for (i, c) in n.sub_nodes().enumerate() {
         cur.push(i);
         paths(c, cur, out);
@@ -581,6 +593,9 @@ fn swap_calls(n: &mut Node, funcs: &HashMap<String, uiua::Function>) -> usize {
             k += 1;
         }
     }
+    if is_opaque(n) {
+        return k;
+    }
     for c in n.sub_nodes_mut() {
         k += swap_calls(c, funcs);
     }
@@ -590,6 +605,9 @@ fn swap_calls(n: &mut Node, funcs: &HashMap<String, uiua::Function>) -> usize {
 fn collect_funcs(n: &Node, out: &mut HashMap<String, uiua::Function>) {
     if let Node::Call(f, _) = n {
         out.insert(f.id.to_string(), f.clone());
+    }
+    if is_opaque(n) {
+        return;
     }
     for c in n.sub_nodes() {
         collect_funcs(c, out);
